@@ -266,6 +266,9 @@ class Exec(HeapMixin, ExprMixin, CallMixin, StmtMixin):
             pm = _sys.modules.get(module[6:])
             if name in SPEC_HELPERS:
                 return VFunc('spechelper', name=name)
+            for (hk, hn), hook in self.attr_hooks.items():
+                if hn == name and isinstance(hk, str) and hk.startswith('global:'):
+                    return hook(self, hk[7:], name)
             if pm is not None and hasattr(pm, name):
                 val = getattr(pm, name)
                 if callable(val) and hasattr(val, '__code__'):
@@ -532,6 +535,9 @@ class Exec(HeapMixin, ExprMixin, CallMixin, StmtMixin):
                 cname = objv.typ.cls
                 ft = self.field_type(cname, node.attr)
                 if ft is None:
+                    v = self.eval_pure(lambda: self.getattr(objv, node.attr))
+                    if isinstance(v, VRef) and isinstance(v.typ, (ty.TList, ty.TDict)):
+                        return [(k, v.term, False) for k in self.store_keys(v.typ)]
                     raise Unsupported(f'modifies: unknown field {cname}.{node.attr}')
                 if force_field or not isinstance(ft, (ty.TList, ty.TDict)):
                     return [(('f', node.attr), objv.term, False)]
@@ -752,8 +758,9 @@ class Exec(HeapMixin, ExprMixin, CallMixin, StmtMixin):
                 env2['result'] = result
                 sink = self.fact if (c.pure and self.qvars) else self.assume
                 for exc, rd in excs:
-                    if rd.get('when') is not None and rd.get('iff', True):
-                        terms = [t for _, t in self.spec_terms(rd['when'], env2)]
+                    mustp = rd.get('must') or rd.get('when')
+                    if mustp is not None and rd.get('iff', True):
+                        terms = [t for _, t in self.spec_terms(mustp, env2)]
                         sink(z3.Not(z3.And(terms)))
                 for tag, preds in c.ensures.items():
                     for pred in preds:
